@@ -744,3 +744,24 @@ Theorem C10_client_padding_after_the_ladder_refuted :
        (IterClient.trace CS client n false (IterClient.mk CS own p rsz psz c0) ops) = true).
 Proof. exact IterClientProofs.refuted_all. Qed.
 Print Assumptions C10_client_padding_after_the_ladder_refuted.
+
+(** ** [RenderIterator.close()] tied to the source as a theorem (T): its statements are translated
+    from render/_iterator.py on every run into the step program [gen/CloseSrc.v] by
+    [harness/tx/tx_close.py]; run over the iterator state with the finalizer oracle
+    ([model/IterCloseProg.v]: [CFinalize] is the only step that may raise, a [finally] block
+    runs all the same) the program IS [IterFin.fclose] — the close of every theorem above about
+    raising finalizers — for every state and every finalizer behaviour *)
+From TI Require Import model.IterCloseProg gen.CloseSrc proofs.IterCloseTie.
+Theorem C10_source_close :
+  forall RS (fr : nat -> bool) (s : TI.model.Iter.state RS),
+    ccall RS fr src_iter_close s = TI.model.IterFin.fclose RS fr s.
+Proof. exact close_prog_is_fclose. Qed.
+Print Assumptions C10_source_close.
+
+(** the order repaired by 08c670c ([_closed] set only after [finalize()] returned) is a
+    different program; its run is the unrepaired model, which a raising finalizer leaves open *)
+Theorem C10_source_close_unrepaired_order :
+  forall RS (fr : nat -> bool) (s : TI.model.Iter.state RS),
+    ccall RS fr (unrepaired_close) s = TI.model.IterFin.fclose_unrepaired RS fr s.
+Proof. exact unrepaired_prog_is_fclose_unrepaired. Qed.
+Print Assumptions C10_source_close_unrepaired_order.
